@@ -21,6 +21,12 @@ let () =
              let rlx = relax_snode n et (z_of_int (int_of_string rl)) in
              let (m, _) = preset_map n (ints cb) (ints ce) (ints ri) rlx (ints cc) (ints sb) (z_of_int (int_of_string ms)) in
              Printf.printf "M %s | OK %d\n" (String.concat " " (List.map (fun z -> string_of_int (int_of_z z)) m)) (if check_slots n m then 1 else 0)
+         | ["PRESETDYN"; n; ms; rl] ->
+             let n = z_of_int (int_of_string n) in
+             let et = ints et in
+             let rlx = relax_snode n et (z_of_int (int_of_string rl)) in
+             let (m, tot) = preset_map_dyn n (ints cb) (ints ce) (ints ri) rlx (ints cc) (ints sb) (z_of_int (int_of_string ms)) in
+             Printf.printf "M %s | NEXTLU %d\n" (String.concat " " (List.map (fun z -> string_of_int (int_of_z z)) m)) (int_of_z tot)
          | _ -> print_endline "ERR")
     | [hd; reqs] ->
         (* BUMP next max | num num ... : the locked bump allocator on the request sequence; prints the blocks' starts or ABORT *)
